@@ -220,6 +220,19 @@ gproof! { #[kani::unwind(4)] fn c06_from_header_and_vec__tr() {
     assert!(vrt::drops() == len + 1 && vrt::glive(0));
 } }
 
+// @h props=C06,C01 bounded=len<=3 fuc=Arc::from_header_and_vec,Arc::from(Vec),Arc::drop note="ZERO-SIZED elements with a destructor moved out of a Vec: none destroyed by the constructor, each destroyed exactly once by the allocation"
+gproof! { #[kani::unwind(6)] fn c06_from_vec__zero_sized_elements_with_drop() {
+    let len: usize = kani::any();
+    kani::assume(len <= 3);
+    let mut v: Vec<Zd> = Vec::new();
+    let mut i = 0;
+    while i < len { v.push(Zd); i += 1; }
+    let a: Arc<[Zd]> = Arc::from(v);
+    assert!(a.len() == len && cnt(&a) == 1 && unsafe { vrt::ZDROPS } == 0 && vrt::glive(1));
+    drop(a);
+    assert!(unsafe { vrt::ZDROPS } == len && vrt::glive(0));
+} }
+
 // @h props=C06 bounded=len<=4 fuc=Arc::from_header_and_str
 gproof! { #[kani::unwind(6)] fn c06_from_header_and_str() {
     let bytes: [u8; 4] = kani::any();
